@@ -1902,6 +1902,7 @@ class Engine:
                 except Raised:
                     obj.unset.add(attr)
                     raise
+                v = _container_copy(v)  # the entry value itself stays untouched for old(...)
                 obj.fields[attr] = v
                 return v
             m = self.world.resolve_method(obj.cls, attr)
@@ -2003,6 +2004,20 @@ class Engine:
 
     def ev_Starred(self, e, fr):
         raise OutOfSubset("starred")
+
+
+def _container_copy(v):
+    if isinstance(v, VList):
+        if v.concrete():
+            return VList(list(v.items), elemty=v.elemty)
+        return VList(None, v.n, v.get, v.elemty)
+    if isinstance(v, VDict):
+        d = VDict(dict(v.items), sym=v.sym, valty=v.valty)
+        d.overrides = list(v.overrides)
+        return d
+    if isinstance(v, VOpt):
+        return VOpt(v.isnone, _container_copy(v.inner))
+    return v
 
 
 def _oldview(v):
